@@ -12,7 +12,7 @@ FIXES = [
     ("D6", "0c49052", "C17", ["C17"]), ("D18", "f840d3d", "C18", ["C18"]), ("D21", "35e88fd", "C08", ["C08"]),
     ("D25", "c44c408", "C20", ["C20", "C19"]), ("D27", "02e0e1a", "C04", ["C04"]), ("D29", "f8623bd", "C08", ["C08"]),
     ("D26", "83c5ae9", "C06", ["C06"]), ("D28", "3228927", "C08", ["C08"]), ("D30", "ce45afe", "C02", ["C02", "C16"]), ("D31", "e6ee878", "C04", ["C04"]), ("D32", "dc7d07b", "C08", ["C08", "C20"]), ("D33", "6d23e96", "C08", ["C08"]), ("D34", "fa20f7a", "C19", ["C19"]), ("D35", "d457ac3", "C19", ["C19"]),
-    ("D36", "2a1e787", "C17", ["C17"]), ("D37", "162df6d", "C20", ["C20"]),
+    ("D36", "2a1e787", "C17", ["C17"]), ("D37", "162df6d", "C20", ["C20"]), ("D19", "2e754e3", "C18", ["C18", "C13"]),
 ]
 args = [a for a in sys.argv[1:] if not a.startswith("--")]
 slot = "7"
